@@ -278,3 +278,16 @@ fn indent_regexp(regexp: String, config: &RegExpConfig) -> String {
 
     indented_regexp.join("\n")
 }
+
+#[cfg(any(grex_verif, kani))]
+pub(crate) mod verif_forward {
+    pub(crate) fn convert_for_case_insensitive_matching(mut test_cases: Vec<String>) -> Vec<String> {
+        super::RegExp::convert_for_case_insensitive_matching(&mut test_cases);
+        test_cases
+    }
+
+    pub(crate) fn sort(mut test_cases: Vec<String>) -> Vec<String> {
+        super::RegExp::sort(&mut test_cases);
+        test_cases
+    }
+}
